@@ -120,15 +120,38 @@ def run_case(case):
                 optsets.append({"categories": []})
                 optsets.append({"categories": [catcols[0]]})
                 optsets.append({"categories": {catcols[0]: int(pf.categories[catcols[0]]) if isinstance(pf.categories, dict) else 100}})
+            if not catcols and not pf.has_pandas_metadata and pf.row_groups:
+                # foreign file: columns dictionary-encoded in every row group can be asked for as categories
+                dcols = None
+                for rg in pf.row_groups:
+                    here = {".".join(c.meta_data.path_in_schema) for c in rg.columns
+                            if set(c.meta_data.encodings or []) & {2, 8} and len(c.meta_data.path_in_schema) == 1}
+                    dcols = here if dcols is None else dcols & here
+                dcols = sorted(c for c in (dcols or ()) if c in filecols and str(pf.dtypes.get(c)) == "object")
+                if dcols:
+                    optsets.append({"categories": [dcols[0]]})
+                    optsets.append({"categories": {dcols[0]: 64}})
+            # the default read again at the end, on the same handle: answers must not depend on what was asked before
+            optsets.append({"_repeat_default": True})
+            first_default = {}
             for o in optsets:
+                repeat = bool(o.get("_repeat_default"))
+                o = {k_: v_ for k_, v_ in o.items() if k_ != "_repeat_default"}
                 ix = o.get("index")
                 if isinstance(ix, str):
                     dts = str(pf.dtypes.get(ix))
                     if dts[:3] in ("Int", "UIn") or dts == "boolean":
                         continue  # masked column as index: known finding of C06, not a prediction question
                 okey = (case["src"], pandas_nulls, tuple(sorted(o)))
+                got_first = None
+                if repeat:
+                    # read first: asking the handle for a prediction could itself refresh its state
+                    try:
+                        got_first = pf.to_pandas()
+                    except Exception as e:
+                        got_first = e
                 try:
-                    pred_dt = dict(pf._dtypes(o.get("categories")))
+                    pred_dt = dict(pf._dtypes(o.get("categories"))) if "categories" in o else dict(pf.dtypes)
                     pred_cols = list(pf.columns)
                     pred_cats = list(pf.cats)
                     pred_index = pf._get_index(o.get("index"))
@@ -139,13 +162,24 @@ def run_case(case):
                     res["failures"].append({"kind": "prediction_raised", "opts": o, **C.exc_shape(e)})
                     continue
                 try:
-                    got = pf.to_pandas(**o)
+                    if isinstance(got_first, Exception):
+                        raise got_first
+                    got = got_first if got_first is not None else pf.to_pandas(**o)
                 except Exception as e:
                     counters["read_raised"] = counters.get("read_raised", 0) + 1
                     counters["read_raised:" + type(e).__name__] = counters.get("read_raised:" + type(e).__name__, 0) + 1
                     continue   # a failing read is C01/C03/C06's business
                 counters["optionsets_compared"] = counters.get("optionsets_compared", 0) + 1
-                ctx = {"opts": o, "pandas_nulls": pandas_nulls, "src": case["src"]}
+                ctx = {"opts": o, "pandas_nulls": pandas_nulls, "src": case["src"], "repeat": repeat}
+                if not o:
+                    sig = ([str(c) for c in got.columns], [str(d) for d in got.dtypes], {k_: str(v_) for k_, v_ in pred_dt.items()})
+                    if not repeat:
+                        first_default = sig
+                    else:
+                        counters["default_reads_repeated"] = counters.get("default_reads_repeated", 0) + 1
+                        if first_default and sig != first_default:
+                            res["failures"].append({"kind": "default_read_depends_on_earlier_calls", "first": str(first_default)[:300],
+                                                    "again": str(sig)[:300], **ctx})
                 # shape
                 if len(got) != pred_count or sum(pred_rg) != pred_count or pred_info["rows"] != pred_count or pred_info["row_groups"] != len(pred_rg):
                     res["failures"].append({"kind": "count_prediction", "predicted": [pred_count, sum(pred_rg), pred_info["rows"]], "got": len(got), **ctx})
